@@ -14,13 +14,13 @@ import ast
 from typing import List, Tuple
 
 from ..absstr import Evaluator
-from ..astq import assignments, calls, params, stmts
+from ..astq import assignments, calls, local_from, local_from_text, params, stmts
 from ..callgraph import fkey
 from ..cfg import cond_atoms, flatten_conj, path_conditions
 from ..report import Check
 from ..source import AnalysisError, Project, ancestors, body_walk, dotted, enclosing_stmt, last_attr, norm, parent, qual_of, short
 from .common import world
-from .ctxrules import check_forwarding_condition, forwarding_loops, isolated_copy_ops, partial_stack_views
+from .ctxrules import check_forwarding_condition, deferred_live_context, forwarding_loops, isolated_copy_ops, partial_stack_views
 
 
 def run(chk: Check, proj: Project) -> None:
@@ -38,6 +38,8 @@ def run(chk: Check, proj: Project) -> None:
     s3(chk, proj, w)
     s4(chk, proj, w)
     s5(chk, proj, w)
+    chk.rule("S6", "deferred code (render hooks, renderer closures) never renders with the live input context: provided keys are read from a snapshot taken while the provider's scope was active")
+    deferred_live_context(chk, "S6", proj)
 
 
 def s1(chk: Check, proj: Project, w) -> None:
@@ -175,7 +177,8 @@ def s4(chk: Check, proj: Project, w) -> None:
     for q in ("set_provided_context_var", "ProvideNode.render"):
         f = m.func(q)
         chk.analysed(fkey(m, f))
-        tainted = {"kwargs", "provided_kwargs", "payload"}
+        pay = local_from(f, lambda v: isinstance(v, ast.Call) and any(isinstance(k, ast.keyword) and k.arg is None for k in v.keywords) and not v.args) or "payload"
+        tainted = {"kwargs", "provided_kwargs", pay}
         for x in body_walk(f):
             # context[<k>] = v
             if isinstance(x, ast.Subscript) and isinstance(x.ctx, ast.Store) and isinstance(x.value, ast.Name) and x.value.id == "context":
@@ -191,15 +194,14 @@ def s4(chk: Check, proj: Project, w) -> None:
             if isinstance(x, ast.Call) and isinstance(x.func, ast.Attribute) and x.func.attr in ("update", "push") and isinstance(x.func.value, ast.Name) and x.func.value.id == "context":
                 n += 1
                 arg = x.args[0] if x.args else None
-                names = {y.id for y in ast.walk(arg)} if arg is not None and not isinstance(arg, ast.Dict) else ({y.id for v in arg.values for y in ast.walk(v) if isinstance(y, ast.Name)} if isinstance(arg, ast.Dict) else set())
-                names = {y for y in names if isinstance(y, str)}
+                names = {y.id for y in ast.walk(arg) if isinstance(y, ast.Name)} if arg is not None else set()
                 bad = names & tainted if arg is not None else set()
                 nonempty_dict = isinstance(arg, ast.Dict) and bool(arg.keys)
                 ok = not bad and not (x.keywords) and not nonempty_dict
                 chk.ob("S4", f"provide:{q}:{short(x, 60)}", m.loc(x), ok, "pushes an empty layer for the inject key" if ok else f"`{short(x)}` pushes the provided data onto the template context")
         # payload sink
         for x in body_walk(f):
-            if isinstance(x, ast.Name) and x.id in ("payload",) and isinstance(x.ctx, ast.Load):
+            if isinstance(x, ast.Name) and x.id in (pay,) and isinstance(x.ctx, ast.Load):
                 st = enclosing_stmt(x)
                 ok = isinstance(st, ast.Assign) and isinstance(st.targets[0], ast.Subscript) and norm(st.targets[0].value) == "provide_cache"
                 n += 1
@@ -240,7 +242,8 @@ def s5(chk: Check, proj: Project, w) -> None:
     ok3 = bool(raises) and any((dotted(r.exc.func) if isinstance(r.exc, ast.Call) else dotted(r.exc)) == "KeyError" for r in raises if r.exc is not None) and isinstance(f.body[-1], ast.Raise)
     chk.ob("S5", "provide:get_injected_context_var:keyerror", m.loc(raises[-1]) if raises else m.loc(f), ok3, "otherwise KeyError is raised" if ok3 else "the final exit is not `raise KeyError`")
     # internal key = prefix + key
-    a = assignments(f, "internal_key")
+    ikey = local_from_text(f, "_INJECT_CONTEXT_KEY_PREFIX") or "internal_key"
+    a = assignments(f, ikey)
     ok4 = len(a) == 1 and a[0][1] is not None and "_INJECT_CONTEXT_KEY_PREFIX" in norm(a[0][1]) and "key" in norm(a[0][1])
     chk.ob("S5", "provide:get_injected_context_var:key-construction", m.loc(a[0][0]) if a else m.loc(f), ok4, "lookup key is the inject prefix + the requested key")
 
